@@ -1,4 +1,5 @@
-import Proofs.Codec.Varint
+import Proofs.Codec.WireRT
+import Proofs.Codec.Json
 /-!
 # C38 — Every stored or transmitted object round-trips through the codec; sign bytes are canonical
 
@@ -80,5 +81,84 @@ theorem height_switch_roundtrip_fails :
   · intro v b h; cases v <;> simp at h <;> subst h <;> decide
   · decide
   · decide
+
+/-! ## The generic wire interpreter -/
+
+/-- **Round trip through the protobuf codec**, for every schema with valid, pairwise distinct field
+numbers at every level and every value whose encoding fits a Go `int` (a machine limit, not a size
+bound of the statement): decoding the encoding gives exactly `normalize v` — the original with
+nil ↔ empty and default ↔ absent identified the way the generated code identifies them. -/
+theorem wire_roundtrip (s : Schema) (vs : List Value) (hw : wfSchema s = true)
+    (hs : (encodeMsg s vs).length < 2 ^ 63) : decodeMsg s (encodeMsg s vs) = some (normFields s vs) := by
+  simp only [wfSchema, Bool.and_eq_true, decide_eq_true_eq] at hw
+  have hs' : (serToks (encFields s vs)).length < two63 := by simpa [encodeMsg, two63] using hs
+  have htok := tokenize_payload s vs hw.1 hs'
+  have hrec := rt_fields_gen s [] [] vs rfl (by simpa using hw.1) (by simpa using hw.2) (by simpa using hs')
+  simp only [List.nil_append] at hrec
+  simp only [decodeMsg, encodeMsg, htok, hrec]
+
+/-- Non-vacuity: a transaction-shaped schema (embedded `Any`, repeated coins with a non-nullable
+custom integer, embedded signature, string, int64) and a value with nil and empty fields. -/
+def exCoin : Schema := [.bytes 1 .str false, .bytes 2 .bigint true]
+def exStdTx : Schema :=
+  [.msg 1 false anySchema, .repMsg 2 exCoin, .msg 3 false [.bytes 1 .bytes false, .bytes 2 .bytes false],
+   .bytes 4 .str false, .int 5 .i64 false, .oneof [(7, exCoin), (8, anySchema)]]
+def exTx : List Value :=
+  [.msg (some [.bytes (some [0x2f, 0x78]), .bytes (some [1, 2, 3])]),
+   .rep (some [.msg (some [.bytes (some [0x75]), .bytes none])]),
+   .msg (some [.bytes none, .bytes (some [])]), .bytes (some []), .int (2 ^ 64 - 1),
+   .one (some (7, .msg (some [.bytes (some [0x61]), .bytes (some [0x37])])))]
+
+example : wfSchema exStdTx = true := by decide
+example : (encodeMsg exStdTx exTx).length < 2 ^ 63 := by decide
+example : decodeMsg exStdTx (encodeMsg exStdTx exTx) = some (normFields exStdTx exTx) := by rfl
+
+/-- The normal form really differs from the original where Go cannot tell the difference after a
+round trip: the empty signature bytes come back nil and the nil amount comes back as "0". -/
+theorem normalize_is_not_identity :
+    normFields exStdTx exTx =
+      [.msg (some [.bytes (some [0x2f, 0x78]), .bytes (some [1, 2, 3])]),
+       .rep (some [.msg (some [.bytes (some [0x75]), .bytes (some [0x30])])]),
+       .msg (some [.bytes none, .bytes none]), .bytes (some []), .int (2 ^ 64 - 1),
+       .one (some (7, .msg (some [.bytes (some [0x61]), .bytes (some [0x37])])))] := by rfl
+
+/-- `Any`: packing a message and resolving it again through the interface registry. -/
+theorem any_roundtrip (reg : List (Bytes × Schema)) (url : Bytes) (s : Schema) (vs : List Value)
+    (hreg : reg.lookup url = some s) (hw : wfSchema s = true) (hs : (encodeMsg s vs).length < 2 ^ 63) :
+    unpackAny reg (packAny url s vs) = some (url, normFields s vs) := by
+  simp [unpackAny, packAny, hreg, wire_roundtrip s vs hw hs]
+
+example : unpackAny [([0x2f], exCoin)] (packAny [0x2f] exCoin [.bytes (some [0x75]), .bytes none]) =
+    some ([0x2f], [.bytes (some [0x75]), .bytes (some [0x30])]) := by rfl
+
+/-- The decoder accepts more than the encoder produces (unknown fields are skipped, the last of a
+repeated scalar wins) — the other direction of the round trip does not hold. -/
+theorem decode_not_injective :
+    decodeMsg exCoin [0x0a, 0x01, 0x75, 0x12, 0x01, 0x37] = decodeMsg exCoin [0x0a, 0x01, 0x76, 0x0a, 0x01, 0x75, 0x12, 0x01, 0x37, 0x18, 0x05] := by
+  rfl
+
+/-! ## Sign bytes -/
+
+/-- `SortJSON` gives the same tree for any two JSON documents that differ only in the order of
+object members (at any depth). -/
+theorem sortJSON_perm_invariant {a b : Json.Json} (h : Json.PermEq a b) : Json.sortJSON a = Json.sortJSON b :=
+  Json.sortJSON_perm_invariant h
+
+/-- Same content → same sign bytes, regardless of field or map order of the input. -/
+theorem signbytes_canonical {a b : Json.Json} (h : Json.PermEq a b) :
+    Json.render (Json.sortJSON a) = Json.render (Json.sortJSON b) :=
+  Json.signbytes_canonical h
+
+example : Json.PermEq Json.exA Json.exB ∧ Json.exA ≠ Json.exB := ⟨Json.exA_permEq_exB, by decide⟩
+
+/-- Sorting is idempotent: sign bytes are a canonical form of their own content. -/
+theorem sortJSON_idem (a : Json.Json) : Json.sortJSON (Json.sortJSON a) = Json.sortJSON a := Json.sortJSON_idem a
+
+/-- `StdSignBytes`: whatever order the five members of the sign document are produced in, the bytes
+that get signed are the same. -/
+theorem signBytes_field_order_irrelevant (chainId : Bytes) (entropy : Int) (fee msg : Json.Json) (memo : Bytes)
+    (members : List (Bytes × Json.Json)) (h : members.Perm (Json.signDocMembers chainId entropy fee msg memo)) :
+    Json.render (Json.sortJSON (.obj members)) = Json.signBytes chainId entropy fee msg memo :=
+  Json.signBytes_field_order_irrelevant chainId entropy fee msg memo members h
 
 end C38
